@@ -149,7 +149,7 @@ def evaluate_direct(ctx, insts, results, perturb=None):
         ctx.sample({"direct_instance": inst, "result": {k: res[k] for k in ("tv", "part", "sr", "cost")}})
     l2_bad = []
     if ok_cases:
-        failing, errors = eval_checks("C05dir", HEADER, {"L1": "direct_l1", "L2": "direct_l2"}, ok_cases, shard=250)
+        failing, errors = eval_checks("C05dir", HEADER, {"L1": "direct_l1", "L2": "direct_l2"}, ok_cases, shard=200)
         if errors:
             raise RuntimeError("coq evaluation failed: " + errors[0][1])
         for i in failing["L1"]:
@@ -160,7 +160,7 @@ def evaluate_direct(ctx, insts, results, perturb=None):
                           {"direct": inst})
         l2_bad = [ok_meta[i][0] for i in failing["L2"]]
     if cf_cases:
-        failing, errors = eval_checks("C05cf", HEADER, {"CF": "direct_conflict"}, cf_cases, shard=400)
+        failing, errors = eval_checks("C05cf", HEADER, {"CF": "direct_conflict"}, cf_cases, shard=120)
         if errors:
             raise RuntimeError("coq evaluation failed: " + errors[0][1])
         for i in failing["CF"]:
